@@ -155,7 +155,7 @@ type ProgGen struct {
 	inSwitch int
 	stmts    int
 	MaxStmts int
-	hdr      int // > 0 while emitting a statement header
+	hdr      int    // > 0 while emitting a statement header
 	FaultAt  int    // statement ordinal (1-based, counted over the whole program) replaced by Fault; 0 = none
 	Fault    string // deliberately ill-typed statement
 	total    int
